@@ -172,6 +172,41 @@ def design_level(chk):
             "programs_compared_with_real_builder": nprog, "edge_drift": drift[:3], "impl_model_conformant": not drift}
 
 
+def read_position_family(chk, rng):
+    """For every statement shape of specs/StmtGen.tla and every variable it mentions in ANY position (right-hand side,
+    subscript index, loop bound, guard, keyword value, time): [v <- 1; the statement; v <- 2] (read-after-write and
+    write-after-read around every read position), and for what it writes [w <- 1; the statement; zz <- w]."""
+    from . import c08
+    res = tlc.run_tlc("StmtGen", workers=1, timeout=600)
+    chk.add_tlc(res)
+    out = []
+    for sh in res.json_lines("GEN"):
+        calls = c08.shape_calls(sh)
+        names = set()
+        for c in calls:
+            for key in ("rhs", "c", "e", "time"):
+                if key in c and isinstance(c[key], list):
+                    exprs.variables(c[key], names)
+            for key in ("sub", "args"):
+                for e in c.get(key) or []:
+                    exprs.variables(e, names)
+            for _k, e in c.get("kw") or []:
+                exprs.variables(e, names)
+            for _i, lo, hi in c.get("loops") or []:
+                exprs.variables(lo, names)
+                exprs.variables(hi, names)
+        loopvars = {i for c in calls for i, _lo, _hi in c.get("loops") or []}
+        for v in sorted(n for n in names if n not in loopvars and not n.startswith("<func>") and not n.startswith("<builtin>")):
+            out.append([assign(v, C(1))] + calls + [assign(v, C(2))])
+        for c in calls:
+            ws = [c["lhs"]] if c["op"] == "assign" else (c["lhs"] if c["op"] == "acall" else [])
+            for w in ws:
+                out.append([assign(w, C(1))] + calls + [assign("zz", V(w))])
+    if len(out) < 3000:
+        raise tlc.MachineryError("read-position family has only %d programs" % len(out))
+    return out
+
+
 def run(chk):
     rng = random.Random(chk.seed)
     des = design_level(chk)
@@ -185,6 +220,8 @@ def run(chk):
     n_sim = len(programs) - n_exh
     for _ in range(200 if chk.quick else 4000):
         programs.append(gen.random_program(rng, alpha, rng.randint(6, 11)))
+    fam = read_position_family(chk, rng)
+    programs += rng.sample(fam, 2500) if chk.quick else fam
     cases = []
     builder_errors = 0
     for calls in programs:
@@ -204,7 +241,8 @@ def run(chk):
         "evaluations": len(cases),
         "distinct_nontrivial": nontrivial,
         "rule": "builder programs = all ProgGen behaviours up to depth %d over a %d-call alphabet "
-                "(exhaustive) + TLC-simulated depth-8 behaviours + seeded 6-11 call programs; "
+                "(exhaustive) + TLC-simulated depth-8 behaviours + seeded 6-11 call programs + the read-position family "
+                "(every StmtGen statement shape between a writer and an overwriter of each variable it mentions); "
                 "non-trivial = at least two statements and at least two admissible schedules"
                 % (depth, len(alpha)),
         "exhaustive": True,
